@@ -22,7 +22,10 @@ Readings fixed here (each is also listed in the ASSUMPTIONS of the checks):
    that is left open by the statement -> Undefined.
 
 The second half of the file holds *defect models*: alternative renderings that reproduce known
-wrong behaviours exactly, used only to attribute deviations to a root cause (never to accept).
+wrong behaviours exactly, used only to attribute deviations to a root cause (never to accept):
+GAPFILL, SEPREP, FALSY (C22), RETOK (C23: built strings are tokenised again), TPLSTRIP (C23: a
+string formatted from a template is str.strip()ped, which also eats non-POSIX whitespace at its
+ends), CLASSALPHA (C22: class-form definitions take their fields in alphabetical order).
 """
 from __future__ import annotations
 
@@ -74,9 +77,11 @@ def elements(f, v) -> list[str] | None:
     return None
 
 
-def render(f: dict, v, multi_joined=False) -> list[str]:
+def render(f: dict, v, multi_joined=False, one=None) -> list[str]:
     """arguments of one field; `multi_joined` selects the literal reading of the statement for a
-    MultiInputObj field without '...' (joined with the separator like a plain list)"""
+    MultiInputObj field without '...' (joined with the separator like a plain list);
+    `one` (defect models only) replaces _one, the rendering of one value string"""
+    one = one or _one
     if f.get("argstr") is None or v is None:
         return []
     a, rep = _base_argstr(f)
@@ -86,11 +91,11 @@ def render(f: dict, v, multi_joined=False) -> list[str]:
         return [a] if v is True else []
     els = elements(f, v)
     if els is None:
-        return _one(f, to_str(v), a)
+        return one(f, to_str(v), a)
     if (f["type"] == "multi[str]" and not multi_joined) or rep:
         out = []
         for e in els:
-            out += _one(f, e, a)
+            out += one(f, e, a)
         return out
     if not els:
         raise Undefined("empty plain list")
@@ -100,7 +105,7 @@ def render(f: dict, v, multi_joined=False) -> list[str]:
         if "{" in a:
             raise Undefined("blank-joined list inside a template")
         return ([a] if a else []) + els
-    return _one(f, sep.join(els), a)
+    return one(f, sep.join(els), a)
 
 
 def executable(spec) -> list[str]:
@@ -179,8 +184,10 @@ def value_args(spec: dict, rv: dict, multi_joined=False) -> list[tuple[str, str,
 
 
 # ---------------------------------------------------------------------------- defect models
-GAPFILL, SEPREP, FALSY, RETOK = "gapfill", "seprepeat", "falsy", "retok"
-ALL_DEFECTS = (GAPFILL, SEPREP, FALSY, RETOK)
+GAPFILL, SEPREP, FALSY, RETOK, TPLSTRIP = "gapfill", "seprepeat", "falsy", "retok", "tplstrip"
+ALL_DEFECTS = (GAPFILL, SEPREP, FALSY, RETOK, TPLSTRIP)
+POSIX_BLANKS = " \t\r\n"
+CLASSALPHA = "classalpha"  # only for definitions in the class form; not part of ALL_DEFECTS
 
 
 class Raises:
@@ -233,19 +240,41 @@ def split_cmd_model(s: str):
     return out
 
 
+def _strip_ends(pieces: list[str]) -> list[str]:
+    """Defect model TPLSTRIP on reference arguments: the string formatted from a template is
+    stripped with str.strip(), which also removes the whitespace characters that are not POSIX
+    blanks (NO-BREAK SPACE, IDEOGRAPHIC SPACE, FF, VT, ...) from its two ends"""
+    pieces = list(pieces)
+    while pieces and not pieces[-1].strip():
+        pieces.pop()
+    while pieces and not pieces[0].strip():
+        pieces.pop(0)
+    if pieces:
+        pieces[-1] = pieces[-1].rstrip()
+        pieces[0] = pieces[0].lstrip()
+    return pieces
+
+
+def _one_stripped(f, s: str, a: str) -> list[str]:
+    return _strip_ends(_one(f, s, a))
+
+
 def _strings(f, v, defects) -> list:
     """per-field chunks as the RETOK model sees them: list[str] = verbatim arguments,
-    str = a built string that is tokenised again"""
+    str = a built string that is tokenised again.  A string formatted from a template loses the
+    POSIX blanks at its ends (which the tokeniser would drop anyway; it matters for a backslash
+    in front of a trailing blank) and, with TPLSTRIP, all other str.strip() whitespace too."""
     if f.get("argstr") is None or v is None:
         return []
     a, rep = _base_argstr(f)
     ph = "{" + f["name"] + "}"
     if f["type"] == "bool":
         return [[a]] if v is True else []
+    strip = (lambda x: x.strip()) if TPLSTRIP in defects else (lambda x: x.strip(POSIX_BLANKS))
 
     def one(s, falsy):  # string built for one value
         if ph in a:
-            return a.replace(ph, s).strip()
+            return strip(a.replace(ph, s))
         if falsy and FALSY in defects:
             return ""
         return f"{a} {s}"
@@ -259,7 +288,7 @@ def _strings(f, v, defects) -> list:
     sep = " " if sep is None else sep
     if rep:
         if ph in a:
-            parts = [" " + a.replace(ph, e).strip() for e in els]
+            parts = [" " + strip(a.replace(ph, e)) for e in els]
         else:
             parts = [f" {a} {e}" for e in els]
         return [(sep if SEPREP in defects else " ").join(parts)]
@@ -271,7 +300,15 @@ def model(spec, rv, append_args, defects) -> list[str] | Raises:
     """argv predicted when exactly the given defects are present.  Without RETOK the strings are
     split at blanks only where the reference splits them (so values stay intact)."""
     defects = frozenset(defects)
-    order = ordered_gapfill(spec["fields"]) if GAPFILL in defects else ordered(spec["fields"])
+    fields = spec["fields"]
+    if CLASSALPHA in defects:
+        # Defect model CLASSALPHA: the fields of a definition written as a class are collected
+        # with dir(klass), i.e. sorted by name, and that order takes the place of the definition
+        # order (for unpositioned fields and for the gap filling above)
+        if spec.get("style") != "class":
+            raise Undefined("not a class-form definition")
+        fields = sorted(fields, key=lambda f: f["name"])
+    order = ordered_gapfill(fields) if GAPFILL in defects else ordered(fields)
     out = executable(spec)
     for f in order:
         v = rv[f["name"]]
@@ -290,12 +327,13 @@ def model(spec, rv, append_args, defects) -> list[str] | Raises:
 
 
 def _render_with(f, v, defects):
-    """reference rendering with the content defects SEPREP / FALSY switched on"""
+    """reference rendering with the content defects SEPREP / FALSY / TPLSTRIP switched on"""
     if f.get("argstr") is None or v is None:
         return []
     a, rep = _base_argstr(f)
     ph = "{" + f["name"] + "}"
     els = elements(f, v)
+    one = _one_stripped if (TPLSTRIP in defects and ph in a) else _one
     if FALSY in defects and ph not in a and f["type"] != "bool":
         if els is None and (v == 0 or v == ""):
             return []
@@ -303,7 +341,7 @@ def _render_with(f, v, defects):
             els = [e for e in els if e != ""]
             out = []
             for e in els:
-                out += _one(f, e, a)
+                out += one(f, e, a)
             return out
     if SEPREP in defects and rep and els is not None and f["type"] != "multi[str]":
         sep = f.get("sep")
@@ -311,12 +349,12 @@ def _render_with(f, v, defects):
         if sep.strip():
             out = []
             for i, e in enumerate(els):
-                piece = _one(f, e, a)
+                piece = one(f, e, a)
                 if i < len(els) - 1:
                     piece = piece[:-1] + [piece[-1] + sep]
                 out += piece
             return out
-    return render(f, v)
+    return render(f, v, one=one)
 
 
 def explain(spec, rv, append_args, observed, candidates=ALL_DEFECTS):
